@@ -20,6 +20,7 @@ func init() {
 }
 
 func checkC02(c *Ctx, r *Report) {
+	defer spliceThroughLexerRule(c, r)
 	r.Assumption("operator semantics (${x:d}, ${x:+a}, ${x:?m}), escapes and typed results of single references are value-level and not decided")
 	getValue := c.Method("", "cfgDynamic", "getValue")
 	valueT := c.Named("", "value")
@@ -507,4 +508,43 @@ func isLenOf(v, slice ssa.Value) bool {
 func IsCallTo2(v ssa.Value, f *ssa.Function) bool {
 	call, ok := v.(*ssa.Call)
 	return ok && IsCallTo(call, f)
+}
+
+// spliceThroughLexerRule (R02h): under VarExp every string goes through the lexer, because the lexer is also what
+// takes the escapes away ($$ is a dollar, $} a brace). The expression parseSplice answers with is therefore the one
+// parseVarExp built from the lexer's tokens — never the input text handed back as a constant by a shortcut ("no ${ in
+// it, nothing to do"), which would leave "USD 5$$" as it is while "${c} 5$$" next to it reads "… 5$".
+func spliceThroughLexerRule(c *Ctx, r *Report) {
+	r.Rule("R02h", "parseSplice answers only with what parseVarExp built from the lexer's tokens (no shortcut hands the input text back unlexed)", 1)
+	ps := c.Func("", "parseSplice")
+	pv := c.Func("", "parseVarExp")
+	n := 0
+	for _, ret := range Returns(ps) {
+		if len(ret.Results) != 2 || IsNilConst(ret.Results[0]) {
+			continue
+		}
+		n++
+		ok := true
+		why := ""
+		for _, s := range append(Sources(ret.Results[0]), ret.Results[0]) {
+			switch x := s.(type) {
+			case *ssa.Extract:
+				if call, isCall := x.Tuple.(*ssa.Call); !isCall || call.Call.StaticCallee() != pv {
+					ok, why = false, "the result of another call"
+				}
+			case *ssa.Const:
+				if !x.IsNil() {
+					ok, why = false, "a constant"
+				}
+			case *ssa.Parameter:
+				ok, why = false, "the input text itself (parameter "+x.Name()+")"
+			case *ssa.Call:
+				ok, why = false, "the result of "+calledName(x)
+			}
+		}
+		r.Check(ok, "R02h", c.FnName(ps), "expression built from the lexer's tokens", c.Pos(ret.Pos()), "the value returned is parseVarExp's result", "parseSplice answers with "+why+" instead of the expression parseVarExp built from the lexer's tokens: a string without a reference keeps its escapes ($$, $}) while the same text next to a reference loses them")
+	}
+	if n == 0 {
+		r.add("R02h", c.FnName(ps), "expression built from the lexer's tokens", c.Pos(ps.Pos()), Undecided, true, "parseSplice returns no expression")
+	}
 }
